@@ -19,15 +19,22 @@ def obligations(tier):
         for hw in (1, 2):
             for (hm, hs) in ((1, 0), (1, 1), (0, 0)):
                 sl.append({'desc': d, 'hw': hw, 'has_min': hm, 'has_sec': hs})
-    obs = [Ob('O7.2-match_to_time', 'xh', 'harness.C07:h_match_to_time', twin='harness.C07:t_match_to_time', slices=sl, timeout=t,
+    obs = [Ob('O7.2-match_to_time', 'sx', 'harness.C07:h_match_to_time', twin='harness.C07:t_match_to_time', slices=sl, timeout=t,
               descr='hour/min/sec groups + am/pm description -> 24-hour time, TIMEX THH[:MM[:SS]], ambiguity comment, value on the reference date',
               bounds='h 0..24 (1..12 with am/pm), m,s 0..59, reference date 1950..2090 (day<=28); one slice per description x hour width x fields present',
               encodes=['recognizers_date_time.date_time.base_time:BaseTimeParser.match_to_time'],
               stubs=['FakeMatch (named groups only)', 'digit placeholders for group texts; int() patched in base_time'])]
-    obs.append(Ob('O7.3-to_pm', 'xh', 'harness.C07:h_to_pm', slices=[{'has_min': a, 'has_sec': b} for a, b in ((0, 0), (1, 0), (1, 1))], timeout=t,
+    obs.append(Ob('O7.3-to_pm', 'sx', 'harness.C07:h_to_pm', slices=[{'has_min': a, 'has_sec': b} for a, b in ((0, 0), (1, 0), (1, 1))], timeout=t,
                   descr='second reading: to_pm / all_str_to_pm add exactly 12 hours (12 -> 00) in values, timexes, date-times and ranges; durations untouched',
                   bounds='h 1..12, m,s 0..59', encodes=[U + 'to_pm', U + 'all_str_to_pm']))
-    obs.append(Ob('O7.5-formatters', 'xh', 'harness.C07:h_short_time', timeout=t,
+    obs.append(Ob('O7.5-formatters', 'sx', 'harness.C07:h_short_time', timeout=t,
                   descr='short_time / format_short_time / luis_time / format_time / luis_date_time render the given h:m:s',
                   bounds='h 0..23, m,s 0..59, both flags', encodes=[U + 'short_time', U + 'format_short_time', U + 'luis_time', U + 'format_time', U + 'luis_date_time']))
+    sl4 = [{'desc': d, 'has_min': hm, 'has_sec': hs, 'tail': tl} for d in ('', 'am', 'pm') for (hm, hs) in ((1, 0), (1, 1), (0, 0))
+           for tl in ('', ' in the afternoon', ' in the morning')]
+    obs.append(Ob('O7.4-date-and-time', 'sx', 'harness.C07:h_date_and_time', slices=sl4, timeout=t,
+                  descr='<date> at <time>: merge_date_and_time composes the date with the 24-hour time; TIMEX dateTtime; ampm comment propagates exactly for ambiguous hours',
+                  bounds='date 1900..2099 (day<=28), h 0..23 (1..12 with am/pm), m,s 0..59; inner extractors/parsers stubbed, the time value comes from the real match_to_time',
+                  encodes=['recognizers_date_time.date_time.base_datetime:BaseDateTimeParser.merge_date_and_time'],
+                  stubs=['date/time extractors return fixed spans; date parser returns a symbolic date']))
     return obs
